@@ -154,6 +154,7 @@ def run(ctx):
     rebound, gen = import_lib(libdir)
     rng = ctx.rng
     ctx.regen("translate_descriptors.py")
+    ctx.regen("translate_readsets.py")
     proved = ctx.prove("C05", extra_targets=["C05/Run.vo"])
     ok_enum, det = check_dtype_enum()
     ctx.obligation("regenerate:dtype enum values as assumed by the harness", ok_enum, det)
